@@ -260,7 +260,11 @@ fn run_impl(t: &str, env: &BTreeMap<String, String>, tw: usize, via_template: bo
     let style = match built {
         Err(p) => return Obs::Panic(p),
         Ok(Err(e)) => {
-            let m = e.to_string();
+            // Display for TemplateError is indicatif code too: a panic there is an outcome
+            let m = match catch(|| e.to_string()) {
+                Ok(m) => m,
+                Err(p) => return Obs::Panic(format!("Display for TemplateError: {p}")),
+            };
             return match parse_err(&m, t) {
                 Some((s, c)) => Obs::Err(s, c, m),
                 None => Obs::BadOps(format!("unparsable TemplateError text {m:?}")),
@@ -369,6 +373,32 @@ fn run_case(s: &mut Session, c: &Case) {
         if c.via_template { "template" } else { "with_template" },
         if c.ast.is_some() { " [grammar]" } else { "" }
     );
+    if let Some(ast) = &c.ast {
+        // which way each placeholder's key is dispatched (format_map / "bar" / `_ => ()`)
+        let mut seen_known = false;
+        for i in ast {
+            if let Item::Ph(k, f) = i {
+                if c.env.contains_key(k) {
+                    s.count("key:overridden");
+                    seen_known = true;
+                } else if k == "bar" && c.bar0 {
+                    s.count("key:builtin-bar");
+                    seen_known = true;
+                } else if !BUILTIN.contains(&k.as_str()) {
+                    s.count("key:unknown");
+                    if seen_known {
+                        s.count("key:unknown-after-a-key-that-wrote");
+                    }
+                    if f.as_ref().map_or(false, |f| !f.width.is_empty()) {
+                        s.count("key:unknown-with-width");
+                    }
+                    if f.as_ref().map_or(false, |f| f.style.is_some()) {
+                        s.count("key:unknown-with-style");
+                    }
+                }
+            }
+        }
+    }
     let obs = run_impl(&c.template, &c.env, c.tw, c.via_template);
     let styles: Vec<(String, String)> = style_candidates(&c.template)
         .into_iter()
@@ -477,6 +507,174 @@ fn run_case(s: &mut Session, c: &Case) {
     s.case(coq, desc, nontrivial);
 }
 
+// ------------------------------------------------------------------ source inventory
+/// Blank out comments, string literals and char literals (so that '/' or "a - b" are not taken
+/// for operators).
+fn strip_literals(src: &str) -> String {
+    let cs: Vec<char> = src.chars().collect();
+    let mut out = String::new();
+    let mut i = 0;
+    while i < cs.len() {
+        let c = cs[i];
+        if c == '/' && cs.get(i + 1) == Some(&'/') {
+            while i < cs.len() && cs[i] != '\n' {
+                i += 1;
+            }
+        } else if c == '"' {
+            out.push('S');
+            i += 1;
+            while i < cs.len() && cs[i] != '"' {
+                i += if cs[i] == '\\' { 2 } else { 1 };
+            }
+            i += 1;
+        } else if c == '\'' {
+            // char literal 'x' / '\n' / '\u{..}'; a lifetime ('a, '_) has no closing quote nearby
+            let close = if cs.get(i + 1) == Some(&'\\') {
+                (i + 2..(i + 12).min(cs.len())).find(|&j| cs[j] == '\'')
+            } else if cs.get(i + 2) == Some(&'\'') {
+                Some(i + 2)
+            } else {
+                None
+            };
+            match close {
+                Some(j) => {
+                    out.push('C');
+                    i = j + 1;
+                }
+                None => {
+                    out.push(c);
+                    i += 1;
+                }
+            }
+        } else {
+            out.push(c);
+            i += 1;
+        }
+    }
+    out
+}
+
+fn count(hay: &str, needle: &str) -> usize {
+    hay.matches(needle).count()
+}
+
+/// The lines (1-based, of the whole file) of the stripped region on which `pred` holds.
+fn lines_where(region: &str, first_line: usize, pred: impl Fn(&str) -> bool) -> Vec<usize> {
+    region.lines().enumerate().filter(|(_, l)| pred(l)).map(|(i, _)| first_line + i).collect()
+}
+
+fn is_ident(c: char) -> bool {
+    c.is_alphanumeric() || c == '_'
+}
+
+/// `x[..]`, `f()[..]`, `a[i][j]`, `x?[..]`: an index or slice expression.
+fn has_index_expr(l: &str) -> bool {
+    let cs: Vec<char> = l.chars().collect();
+    (1..cs.len()).any(|i| cs[i] == '[' && (is_ident(cs[i - 1]) || cs[i - 1] == ')' || cs[i - 1] == ']' || cs[i - 1] == '?'))
+}
+
+/// A binary arithmetic operator (rustfmt puts blanks around them), a shift, or a compound
+/// assignment.  `->`, `=>`, `*x = ..` (deref) and `&mut` are none of these.
+fn has_arith(l: &str) -> bool {
+    let cs: Vec<char> = l.chars().collect();
+    (1..cs.len().saturating_sub(1)).any(|i| {
+        matches!(cs[i], '+' | '-' | '*' | '/' | '%') && ((cs[i - 1] == ' ' && cs[i + 1] == ' ') || cs[i + 1] == '=')
+    }) || l.contains("<<")
+        || l.contains(">>")
+}
+
+fn has_int_cast(l: &str) -> bool {
+    ["u8", "u16", "u32", "u64", "u128", "usize", "i8", "i16", "i32", "i64", "i128", "isize", "f32", "f64", "char"]
+        .iter()
+        .any(|t| l.contains(&format!(" as {t}")))
+}
+
+const PARTIAL_CALLS: [&str; 26] = [
+    ".unwrap()", ".expect(", ".unwrap_err(", "unwrap_unchecked", "panic!", "unreachable!", "assert!", "assert_eq!", "assert_ne!",
+    "todo!", "unimplemented!", ".remove(", ".swap_remove(", ".insert(", ".drain(", ".split_at(", ".split_off(", ".truncate(",
+    ".replace_range(", ".copy_from_slice(", "_unchecked(", ".repeat(", "with_capacity(", ".reserve(", ".pop().unwrap", ".next().unwrap",
+];
+
+/// The no-panic clause of C10 rests on the fact that the code behind with_template/template
+/// contains no operation that can panic other than the ones the model makes explicit
+/// (model/Template.v header, docs/C10.md "Panic sites").  This re-counts them in the source the
+/// harness was built against, so that a re-introduced `unwrap`, a new index/slice, arithmetic
+/// or cast in the parser breaks the tie even when no generated template happens to hit it.
+fn source_inventory(s: &mut Session) {
+    let repo = std::env::var("VERIF_REPO").unwrap_or_else(|_| "/repo".into());
+    let path = format!("{repo}/src/style.rs");
+    let desc = format!("source inventory of {path} (Template parser, TemplateError, with_template, template)");
+    s.count("stream:source-inventory");
+    let src = match std::fs::read_to_string(&path) {
+        Ok(x) => x,
+        Err(e) => {
+            s.fail("source-partial-operation-inventory", format!("cannot read the source: {e}"), desc.clone());
+            s.oracle_only(desc, true);
+            return;
+        }
+    };
+    let mut problems: Vec<String> = vec![];
+    // ---- region 1: `impl Template {` .. `enum TemplatePart` (parser, from_str, set_tab_width,
+    //      TemplateError + its Display/Error impls)
+    match (src.find("\nimpl Template {"), src.find("\nenum TemplatePart")) {
+        (Some(a), Some(b)) if a < b => {
+            let first_line = src[..a].matches('\n').count() + 1;
+            let region = strip_literals(&src[a..b]);
+            for call in PARTIAL_CALLS {
+                let ls = lines_where(&region, first_line, |l| l.contains(call));
+                if !ls.is_empty() {
+                    problems.push(format!("`{call}` at style.rs lines {ls:?}"));
+                }
+            }
+            let ls = lines_where(&region, first_line, has_index_expr);
+            if !ls.is_empty() {
+                problems.push(format!("index/slice expression at style.rs lines {ls:?}"));
+            }
+            let ls = lines_where(&region, first_line, has_arith);
+            if !ls.is_empty() {
+                problems.push(format!("arithmetic operator at style.rs lines {ls:?}"));
+            }
+            let ls = lines_where(&region, first_line, has_int_cast);
+            if !ls.is_empty() {
+                problems.push(format!("`as` cast at style.rs lines {ls:?}"));
+            }
+            // the partial operations the model knows, and their consumers
+            let flat: String = region.split_whitespace().collect::<Vec<_>>().join(" ");
+            if count(&flat, ".parse") != 1 || count(&flat, "buf.parse() .map_err(|_| TemplateError { next: c, state })?") != 1 {
+                problems.push("the u16 parse is no longer the single `buf.parse().map_err(|_| TemplateError { next: c, state })?`".into());
+            }
+            let lm = count(&flat, "last_mut");
+            let lm_if_let = count(&flat, "if let Some(TemplatePart::Placeholder {");
+            if lm != 5 || lm_if_let != 5 || count(&flat, "}) = parts.last_mut() {") != 5 {
+                problems.push(format!("`parts.last_mut()` occurs {lm} times, {lm_if_let} `if let Some(TemplatePart::Placeholder {{` (model: 5, all under `if let`)"));
+            }
+            if count(&flat, "Style::from_dotted_str(&buf)") != 2 || count(&flat, "from_dotted_str") != 2 {
+                problems.push("Style::from_dotted_str is no longer called exactly twice on `&buf`".into());
+            }
+        }
+        _ => problems.push("cannot locate `impl Template {` .. `enum TemplatePart` in style.rs".into()),
+    }
+    // ---- region 2: the two public entry points, compared as text
+    let flat_all: String = strip_literals(&src).split_whitespace().collect::<Vec<_>>().join(" ");
+    for want in [
+        "pub fn with_template(template: &str) -> Result<Self, TemplateError> { Ok(Self::new(Template::from_str(template)?)) }",
+        "pub fn template(mut self, s: &str) -> Result<Self, TemplateError> { self.template = Template::from_str(s)?; Ok(self) }",
+        "fn from_str(s: &str) -> Result<Self, TemplateError> { Self::from_str_with_tab_width(s, DEFAULT_TAB_WIDTH) }",
+    ] {
+        if count(&flat_all, want) != 1 {
+            problems.push(format!("entry point changed, expected `{want}`"));
+        }
+    }
+    if !problems.is_empty() {
+        s.fail(
+            "source-partial-operation-inventory",
+            format!("the code behind with_template/template contains operations the model does not account for: {}", problems.join("; ")),
+            desc.clone(),
+        );
+    }
+    s.oracle_only(desc, true);
+}
+
 // ------------------------------------------------------------------ generators
 fn gen_value(r: &mut Rng, idx: usize) -> String {
     match r.below(6) {
@@ -539,9 +737,11 @@ const WIDTHS: [&str; 22] = [
     "", "", "0", "1", "2", "5", "9", "12", "007", "40", "255", "256", "1000", "65535", "065535", "0000000000000000000065535",
     "65536", "65537", "99999", "4294967296", "18446744073709551616", "0000000000000000000000100",
 ];
-const STYLES: [&str; 16] = [
+// "on", "on_", "on_é", "oné", "on_256" ...: the neighbourhood of `on_c[3..]` in console's
+// Style::from_dotted_str (the one slice in the call tree of with_template, model: str_from 3)
+const STYLES: [&str; 24] = [
     "red", "bold.blue", "on_red", "123", "on_17", "", "x", "red.", "bright.green", "Red", "a.b", "red.on_blue.bold", "256", "on_",
-    "dim.underlined", "blink.reverse.hidden.strikethrough",
+    "dim.underlined", "blink.reverse.hidden.strikethrough", "on", "on_é", "oné", "on_256", "on_-1", "o", "on_\u{10ffff}.on_9", "é.on_",
 ];
 
 fn gen_style_str(r: &mut Rng, alt: bool) -> String {
@@ -673,6 +873,7 @@ fn main() {
     let mut s = Session::new(&a, "C10", header, "tmpl_case", "tmpl_check");
     s.rule = "two streams through ProgressStyle::with_template / ProgressStyle::template and a bar drawn on a recording TermLike, every key-looking name overridden with_key by a marker value: (i) ASTs of the documented grammar (literals adjacent to braces, `{`+whitespace incl. newline, escapes, placeholders with every combination of align/width/!/style/alt, widths 0..2^64 incl. 65535/65536 and 25-digit runs) printed and compared with an independent rendering of the AST; (ii) junk strings over the meta-characters, digit runs, white-space, multibyte and arbitrary scalars (Ok/Err/panic class + rendering vs the model). non-trivial = the template contains a brace; distinct = distinct (template, env, tab width) text".into();
     let mut r = Rng::new(a.seed);
+    source_inventory(&mut s);
 
     // ---- corpus: minimised past failures and boundary cases (grammar ASTs)
     let corpus: Vec<Vec<Item>> = vec![
